@@ -392,3 +392,495 @@ def shaReadLen : Nat := {sha_read}
 end Dulwich.Gen.Index
 """
     return {"Index": src}
+
+
+# ------------------------------------------------------------------------------------------------
+# case encoding (JSON-able <-> model tokens <-> real dulwich objects)
+#
+# time   : int | [sec, nsec] | {"f": float}
+# entry  : {"ctime","mtime","dev","ino","mode","uid","gid","size","sha"(40 hex chars),"flags","ext"}
+# item   : [keyhex, "N", entry] | [keyhex, "C", entry|None, entry|None, entry|None]
+# ext    : [sighex, datahex]
+# index case: {"version": int|None, "skip_hash": bool, "items": [...], "exts": [...]}
+
+U32 = 1 << 32
+SHA_EMPTY = "e69de29bb2d1d6434b8b29ae775ad8c2e48c5391"
+KNOWN_SIGS = (b"TREE", b"REUC", b"UNTR", b"sdir")
+
+
+def float_pair(t: float):
+    """The (sec, nsec) CPython computes in write_cache_time for a float (outside the Lean model)."""
+    secs, nsecs = divmod(t, 1.0)
+    return int(secs), int(nsecs * 1000000000)
+
+
+def time_for_model(t):
+    if isinstance(t, dict):
+        return list(float_pair(t["f"]))
+    return t
+
+
+def tok_time(t) -> str:
+    t = time_for_model(t)
+    if isinstance(t, int):
+        return f"t{t}"
+    return f"{t[0]},{t[1]}"
+
+
+def tok_entry(e: dict, name: bytes = b"") -> str:
+    return ":".join([hx(name), tok_time(e["ctime"]), tok_time(e["mtime"]), str(e["dev"]), str(e["ino"]), str(e["mode"]),
+                     str(e["uid"]), str(e["gid"]), str(e["size"]), e["sha"], str(e["flags"]), str(e["ext"])])
+
+
+def tok_item(it) -> str:
+    if it[1] == "N":
+        return f"{it[0]}|N|{tok_entry(it[2])}"
+    return f"{it[0]}|C|" + "|".join("_" if e is None else tok_entry(e) for e in it[2:5])
+
+
+def model_negative(e: dict) -> bool:
+    """Negative numbers are outside the model (Nat)."""
+    def neg_t(t):
+        t = time_for_model(t)
+        return t < 0 if isinstance(t, int) else (t[0] < 0 or t[1] < 0)
+    return neg_t(e["ctime"]) or neg_t(e["mtime"]) or any(e[k] < 0 for k in ("dev", "ino", "mode", "uid", "gid", "size", "flags", "ext"))
+
+
+def py_time(t):
+    if isinstance(t, dict):
+        return t["f"]
+    if isinstance(t, list):
+        return tuple(t)
+    return t
+
+
+def py_index_entry(e: dict):
+    from dulwich.index import IndexEntry
+    return IndexEntry(py_time(e["ctime"]), py_time(e["mtime"]), e["dev"], e["ino"], e["mode"], e["uid"], e["gid"],
+                      e["size"], e["sha"].encode(), e["flags"], e["ext"])
+
+
+def py_serialized(e: dict, name: bytes):
+    from dulwich.index import SerializedIndexEntry
+    return SerializedIndexEntry(name, py_time(e["ctime"]), py_time(e["mtime"]), e["dev"], e["ino"], e["mode"], e["uid"],
+                                e["gid"], e["size"], e["sha"].encode(), e["flags"], e["ext"])
+
+
+def py_value(it):
+    from dulwich.index import ConflictedIndexEntry
+    if it[1] == "N":
+        return py_index_entry(it[2])
+    return ConflictedIndexEntry(*[None if e is None else py_index_entry(e) for e in it[2:5]])
+
+
+def py_ext(x):
+    from dulwich.index import IndexExtension
+    sig, data = unhx(x[0]), unhx(x[1])
+    if sig in KNOWN_SIGS:
+        return IndexExtension.from_raw(sig, data)   # what a read produces (TREE/REUC/sdir parse to nothing)
+    return IndexExtension(sig, data)
+
+
+def canon_time(t):
+    if isinstance(t, tuple):
+        return f"{t[0]},{t[1]}"
+    return f"t{t}" if isinstance(t, int) else repr(t)
+
+
+def canon_real_entry(e, name: bytes) -> str:
+    """Real IndexEntry/SerializedIndexEntry -> the model's entry token."""
+    sha = e.sha.decode() if isinstance(e.sha, bytes) else str(e.sha)
+    return ":".join([hx(name), canon_time(e.ctime), canon_time(e.mtime), str(e.dev), str(e.ino), str(e.mode), str(e.uid),
+                     str(e.gid), str(e.size), sha, str(e.flags), str(e.extended_flags)])
+
+
+def canon_real_item(k: bytes, v) -> str:
+    from dulwich.index import ConflictedIndexEntry
+    if isinstance(v, ConflictedIndexEntry):
+        return f"{hx(k)}|C|" + "|".join("_" if e is None else canon_real_entry(e, k) for e in (v.ancestor, v.this, v.other))
+    return f"{hx(k)}|N|{canon_real_entry(v, k)}"
+
+
+EXC_MAP = {"error": "struct", "ValueError": "value", "AssertionError": "assertion", "ChecksumMismatch": "checksum",
+           "UnsupportedIndexFormat": "unsupported"}
+
+
+def exc_kind(ex: BaseException) -> str:
+    return "err " + EXC_MAP.get(type(ex).__name__, "py:" + type(ex).__name__)
+
+
+# ------------------------------------------------------------------------------------------------
+# real-code adapters (in-process: pure Python, cannot kill the interpreter)
+
+def real_write_entry(v: int, prev: bytes, e: dict, name: bytes) -> str:
+    from dulwich.index import write_cache_entry
+    f = io.BytesIO()
+    try:
+        write_cache_entry(f, py_serialized(e, name), v, prev)
+    except Exception as ex:
+        return exc_kind(ex)
+    return "ok " + hx(f.getvalue())
+
+
+def real_read_entry(v: int, prev: bytes, data: bytes) -> str:
+    from dulwich.index import read_cache_entry
+    f = io.BytesIO(data)
+    try:
+        e = read_cache_entry(f, v, prev)
+    except Exception as ex:
+        return exc_kind(ex)
+    return f"ok {canon_real_entry(e, e.name)} {hx(data[f.tell():])}"
+
+
+def real_index_write(path: Path, case: dict):
+    """Index.write() on `path` -> ('ok', file bytes) | ('err', kind)."""
+    from dulwich.index import Index
+    idx = Index(str(path), read=False, skip_hash=case["skip_hash"], version=case["version"])
+    for it in case["items"]:
+        idx[unhx(it[0])] = py_value(it)
+    idx._extensions = [py_ext(x) for x in case["exts"]]
+    try:
+        idx.write()
+    except Exception as ex:
+        return "err", exc_kind(ex)
+    return "ok", path.read_bytes()
+
+
+def real_write_index_dict(case: dict) -> str:
+    from dulwich.index import write_index_dict
+    f = io.BytesIO()
+    try:
+        write_index_dict(f, {unhx(it[0]): py_value(it) for it in case["items"]}, version=case["version"],
+                         extensions=[py_ext(x) for x in case["exts"]])
+    except Exception as ex:
+        return exc_kind(ex)
+    return "ok " + hx(f.getvalue())
+
+
+def real_index_read(path: Path):
+    """Index(path) -> ('ok', [(key, value)], version, [(sig, payload)]) | ('err', kind)"""
+    from dulwich.index import Index
+    try:
+        idx = Index(str(path))
+    except Exception as ex:
+        return ("err", exc_kind(ex))
+    return ("ok", list(idx.items()), idx._version, [(x.signature, x.to_bytes()) for x in idx._extensions])
+
+
+def canon_read(r) -> str:
+    if r[0] == "err":
+        return r[1]
+    _, items, ver, exts = r
+    return (f"ok {ver} {len(items)}" + "".join(" " + canon_real_item(k, v) for k, v in items) +
+            f" {len(exts)}" + "".join(f" {hx(s)}:{hx(d)}" for s, d in exts))
+
+
+def model_windex_line(mode: int, case: dict) -> str:
+    ver = "-" if case["version"] is None else str(case["version"])
+    exts = [f"{x[0]}:{x[1]}" for x in _effective_exts(case)]
+    return " ".join([f"c11.windex {mode} {ver} {len(exts)}"] + exts + [tok_item(it) for it in case["items"]])
+
+
+def _effective_exts(case):
+    """(sig, to_bytes()) as the real objects built by py_ext would report."""
+    out = []
+    for x in case["exts"]:
+        sig = unhx(x[0])
+        if sig in (b"TREE", b"REUC", b"sdir"):
+            out.append([x[0], "-"])
+        else:
+            out.append([x[0], x[1]])
+    return out
+
+
+# ------------------------------------------------------------------------------------------------
+# the property's own words: what must come back (independent of the model and of the code)
+
+FLAG_EXTENDED = 0x4000
+NAMEMASK = 0x0FFF
+STAGEMASK = 0x3000
+
+
+def expect_time(t):
+    """-> ('pair', s, n) exact | ('float', t)"""
+    if isinstance(t, dict):
+        return ("float", t["f"])
+    if isinstance(t, int):
+        return ("pair", t, 0)
+    return ("pair", t[0], t[1])
+
+
+def time_matches(exp, got) -> bool:
+    if not isinstance(got, tuple) or len(got) != 2:
+        return False
+    if exp[0] == "pair":
+        return got == (exp[1], exp[2])
+    import math
+    t = exp[1]
+    sec = math.floor(t)
+    return got[0] == sec and abs(got[1] - (t - sec) * 1e9) <= 1.0 and 0 <= got[1] < 1000000000
+
+
+def expected_entry(e: dict, stage: int):
+    """Normal form the index format can hold (git's own narrowing: 32-bit truncation of dev/ino/size)."""
+    flags = (e["flags"] & 0xF000 & ~STAGEMASK) | (stage << 12)
+    if e["ext"]:
+        flags |= FLAG_EXTENDED
+    return {"ctime": expect_time(e["ctime"]), "mtime": expect_time(e["mtime"]), "dev": e["dev"] % U32, "ino": e["ino"] % U32,
+            "mode": e["mode"], "uid": e["uid"], "gid": e["gid"], "size": e["size"] % U32, "sha": e["sha"],
+            "flags": flags, "ext": e["ext"]}
+
+
+def expected_flat(case: dict):
+    """[(name, stage, expected entry)] in git's order: path bytes, then stage."""
+    out = []
+    for it in sorted(case["items"], key=lambda it: unhx(it[0])):
+        k = unhx(it[0])
+        if it[1] == "N":
+            out.append((k, 0, expected_entry(it[2], 0)))
+        else:
+            for st, e in zip((1, 2, 3), it[2:5]):
+                if e is not None:
+                    out.append((k, st, expected_entry(e, st)))
+    return out
+
+
+def expected_version(case: dict) -> int:
+    v = 2 if case["version"] is None else case["version"]
+    uses_ext = any(e[2]["ext"] for e in expected_flat(case))
+    return max(v, 3) if uses_ext else v
+
+
+def real_flat(items):
+    """real dict items -> [(name, stage, IndexEntry)] in dict order"""
+    from dulwich.index import ConflictedIndexEntry
+    out = []
+    for k, v in items:
+        if isinstance(v, ConflictedIndexEntry):
+            for st, e in zip((1, 2, 3), (v.ancestor, v.this, v.other)):
+                if e is not None:
+                    out.append((k, st, e))
+        else:
+            out.append((k, 0, v))
+    return out
+
+
+def entry_diff(exp: dict, got) -> str | None:
+    if not time_matches(exp["ctime"], got.ctime):
+        return f"ctime {got.ctime!r} != {exp['ctime']}"
+    if not time_matches(exp["mtime"], got.mtime):
+        return f"mtime {got.mtime!r} != {exp['mtime']}"
+    for k, a in (("dev", got.dev), ("ino", got.ino), ("mode", got.mode), ("uid", got.uid), ("gid", got.gid),
+                 ("size", got.size), ("flags", got.flags), ("ext", got.extended_flags)):
+        if exp[k] != a:
+            return f"{k} {a} != {exp[k]}"
+    if exp["sha"].encode() != bytes(got.sha):
+        return f"sha {got.sha!r} != {exp['sha']}"
+    return None
+
+
+def time_in_u32(t) -> bool:
+    if isinstance(t, dict):
+        f = t["f"]
+        return 0 <= f < U32
+    if isinstance(t, int):
+        return 0 <= t < U32
+    return 0 <= t[0] < U32 and 0 <= t[1] < U32
+
+
+def case_entries(case):
+    for it in case["items"]:
+        for e in it[2:]:
+            if isinstance(e, dict):
+                yield unhx(it[0]), e
+
+
+def v4_strip_ge_128(case) -> bool:
+    """v4 prefix compression has to remove >= 128 bytes from the previous path somewhere."""
+    if expected_version(case) < 4:
+        return False
+    prev = b""
+    for k, _, _ in expected_flat(case):
+        c = 0
+        while c < min(len(k), len(prev)) and k[c] == prev[c]:
+            c += 1
+        if len(prev) - c >= 128:
+            return True
+        prev = k
+    return False
+
+
+def classify_index_case(case: dict, for_git: bool = False) -> str | None:
+    """Narrow failing-input class of an index case (input properties only), by priority."""
+    ents = list(case_entries(case))
+    if any(e["size"] >= U32 for _, e in ents):
+        return "size>=2^32"
+    if any(not time_in_u32(e["ctime"]) or not time_in_u32(e["mtime"]) for _, e in ents):
+        return "time-out-of-u32"
+    if any(len(k) >= 0x1000 for k, _ in ents):
+        return "name_len>=4096"
+    if any(not (len(unhx(x[0])) == 4 and all(65 <= b <= 90 for b in unhx(x[0]))) for x in case["exts"]
+           if unhx(x[1]) and unhx(x[0]) not in (b"TREE", b"REUC", b"sdir")):
+        return "ext-sig-not-upper"
+    if for_git and v4_strip_ge_128(case):
+        return "v4-strip>=128"
+    return None
+
+
+def in_quantifier(case: dict) -> bool:
+    """Inputs the property quantifies over (everything else is correspondence-only)."""
+    for k, e in case_entries(case):
+        if b"\0" in k or not k:
+            return False
+        if not all(0 <= e[f] < U32 for f in ("mode", "uid", "gid")):
+            return False
+        if e["dev"] < 0 or e["ino"] < 0 or e["size"] < 0:
+            return False
+        if not 0 <= e["flags"] < 0x10000 or not 0 <= e["ext"] < 0x10000:
+            return False
+        if e["flags"] & FLAG_EXTENDED and not e["ext"]:
+            return False      # "extended" bit without extended flags: not an entry git or dulwich produces
+        if len(e["sha"]) != 40:
+            return False
+    for x in case["exts"]:
+        if len(unhx(x[0])) != 4:
+            return False
+    return True
+
+
+def oracle_roundtrip(ctx, stream: str, case: dict, path: Path, prior: bytes | None) -> bool:
+    """Real Index.write -> Index(path) on `case`; reports through ctx.oracle_fail.  Returns True when the
+    statement held.  `prior`: previous contents of `path` (None = did not exist)."""
+    st, out = real_index_write(path, case)
+    if st == "err":
+        now = path.read_bytes() if path.exists() else None
+        if prior is not None and now != prior:
+            ctx.oracle_fail(stream, case, f"Index.write raised ({out}) and replaced the existing index file "
+                            f"({len(prior)} -> {0 if now is None else len(now)} bytes)", "failed-write-replaces-index")
+        ctx.oracle_fail(stream, case, f"Index.write raised {out}", classify_index_case(case))
+        return False
+    r = real_index_read(path)
+    if r[0] == "err":
+        ctx.oracle_fail(stream, case, f"Index(path) after Index.write raised {r[1]}", classify_index_case(case))
+        return False
+    _, items, ver, exts = r
+    exp = expected_flat(case)
+    got = real_flat(items)
+    what = None
+    if [(k, s) for k, s, _ in got] != [(k, s) for k, s, _ in exp]:
+        what = (f"entries (name, stage) read back differ or are out of git's order: got "
+                f"{[(k[:24], len(k), s) for k, s, _ in got][:6]} expected {[(k[:24], len(k), s) for k, s, _ in exp][:6]}")
+    else:
+        for (k, s, e), (_, _, g) in zip(exp, got):
+            d = entry_diff(e, g)
+            if d:
+                what = f"entry {k[:40]!r} stage {s}: {d}"
+                break
+    if what is None and ver != expected_version(case):
+        what = f"version read back {ver} != {expected_version(case)}"
+    if what is None:
+        exp_x = [(unhx(x[0]), unhx(x[1])) for x in case["exts"] if unhx(x[0]) not in KNOWN_SIGS]
+        got_x = [(s, d) for s, d in exts if s not in KNOWN_SIGS]
+        if exp_x != got_x:
+            if [x for x in exp_x if x[1]] == got_x:
+                ctx.oracle_fail(stream, case, "unknown extension with an empty payload is dropped by Index.write",
+                                "unknown-ext-empty-payload")
+                return False
+            what = f"unknown extensions not kept: {got_x} != {exp_x}"
+    if what is None and not case["skip_hash"]:
+        raw = path.read_bytes()
+        if hashlib.sha1(raw[:-20]).digest() != raw[-20:]:
+            what = "trailing checksum is not the SHA-1 of the preceding bytes"
+    if what is not None:
+        ctx.oracle_fail(stream, case, what, classify_index_case(case))
+        return False
+    return True
+
+
+# ------------------------------------------------------------------------------------------------
+# C git as third party
+
+class Git:
+    def __init__(self, ctx):
+        self.ctx = ctx
+        self.env = core.clean_env()
+        self.dir = ctx.scratch / "gitrepo"
+        self.n = 0
+        self.calls = 0
+        self.run(["git", "init", "-q", str(self.dir)], cwd=ctx.scratch)
+
+    def run(self, cmd, cwd=None, inp=None, env=None, check=True):
+        self.calls += 1
+        p = subprocess.run(cmd, cwd=cwd or self.dir, input=inp, env=env or self.env, stdout=subprocess.PIPE,
+                           stderr=subprocess.PIPE, timeout=120)
+        if check and p.returncode != 0:
+            raise core.InfraError(f"git command failed: {cmd}: {p.stderr[-500:]!r}")
+        return p
+
+    def fresh(self) -> Path:
+        """A new empty repository with a work tree."""
+        self.n += 1
+        d = self.ctx.scratch / f"g{self.n}"
+        self.run(["git", "init", "-q", str(d)], cwd=self.ctx.scratch)
+        return d
+
+    def ls(self, index_path: Path, repo: Path | None = None, sparse=False):
+        """git ls-files --stage --debug -z -> (rc, [(name, stage, mode, sha, ctime, mtime, dev, ino, uid, gid, size, flags)], stderr)"""
+        env = dict(self.env, GIT_INDEX_FILE=str(index_path))
+        cmd = ["git", "ls-files", "--stage", "--debug", "-z"] + (["--sparse"] if sparse else [])
+        p = self.run(cmd, cwd=repo or self.dir, env=env, check=False)
+        if p.returncode != 0:
+            return p.returncode, [], p.stderr
+        return 0, parse_ls(p.stdout), p.stderr
+
+
+import re  # noqa: E402
+
+_LS_RE = re.compile(rb"(\d+) ([0-9a-f]{40}) (\d)\t([^\x00]*)\x00  ctime: (\d+):(\d+)\n  mtime: (\d+):(\d+)\n"
+                    rb"  dev: (\d+)\tino: (\d+)\n  uid: (\d+)\tgid: (\d+)\n  size: (\d+)\tflags: ([0-9a-f]+)\n")
+
+
+def parse_ls(out: bytes):
+    res, pos = [], 0
+    while pos < len(out):
+        m = _LS_RE.match(out, pos)
+        if not m:
+            raise core.InfraError(f"cannot parse git ls-files --debug output at {pos}: {out[pos:pos + 120]!r}")
+        g = m.groups()
+        res.append((g[3], int(g[2]), int(g[0], 8), g[1].decode(), (int(g[4]), int(g[5])), (int(g[6]), int(g[7])),
+                    int(g[8]), int(g[9]), int(g[10]), int(g[11]), int(g[12]), int(g[13], 16)))
+        pos = m.end()
+    return res
+
+
+def git_tuple_expected(k: bytes, st: int, e: dict):
+    """what git must list for an expected entry (float times: compared separately)"""
+    return (k, st, e["mode"], e["sha"], e["ctime"], e["mtime"], e["dev"], e["ino"], e["uid"], e["gid"], e["size"],
+            e["flags"] | (e["ext"] << 16))
+
+
+def git_tuple_real(k: bytes, st: int, e):
+    """what git lists, for a real dulwich entry read from a git-written file"""
+    return (k, st, e.mode, bytes(e.sha).decode(), tuple(e.ctime), tuple(e.mtime), e.dev, e.ino, e.uid, e.gid, e.size,
+            e.flags | (e.extended_flags << 16))
+
+
+def oracle_git_lists(ctx, git: Git, stream: str, case: dict, path: Path) -> bool:
+    """C git lists the same entries from the index dulwich wrote at `path`."""
+    rc, listed, err = git.ls(path)
+    cls = classify_index_case(case, for_git=True)
+    if rc != 0:
+        ctx.oracle_fail(stream, case, f"C git cannot read the index dulwich wrote: {err[:160]!r}", cls)
+        return False
+    exp = expected_flat(case)
+    if len(listed) != len(exp):
+        ctx.oracle_fail(stream, case, f"C git lists {len(listed)} entries, expected {len(exp)}", cls)
+        return False
+    for (k, st, e), g in zip(exp, listed):
+        t = git_tuple_expected(k, st, e)
+        ok = t[:4] == g[:4] and t[6:] == g[6:] and time_matches(e["ctime"], g[4]) and time_matches(e["mtime"], g[5])
+        if not ok:
+            ctx.oracle_fail(stream, case, f"C git lists {g[:3]}.. flags {g[-1]:x} for expected {t[:3]}.. flags {t[-1]:x} "
+                            f"(name lengths {len(g[0])}/{len(k)})", cls)
+            return False
+    return True
